@@ -154,11 +154,15 @@ func (x *Exec) callFunction(st *State, fn *ssa.Function, bindings, args []Val, s
 			names = append(names, p.Name())
 		}
 		if len(fn.Params) == 0 {
-			if sig.Recv() != nil {
-				names = append(names, "self")
+			if r := fn.Signature.Recv(); r != nil {
+				n := r.Name()
+				if n == "" || n == "_" {
+					n = "self"
+				}
+				names = append(names, n)
 			}
-			for i := 0; i < sig.Params().Len(); i++ {
-				n := sig.Params().At(i).Name()
+			for i := 0; i < fn.Signature.Params().Len(); i++ {
+				n := fn.Signature.Params().At(i).Name()
 				if n == "" || n == "_" {
 					n = fmt.Sprintf("arg%d", i)
 				}
